@@ -31,6 +31,7 @@ type VSActor struct {
 	Key    int    `json:"key"`    // index into Keys
 	Val    string `json:"val"`    // value for puts
 	RecKey int    `json:"reckey"` // putrpc: index of the key embedded in the record (-1 = same as Key)
+	Stamp  int    `json:"stamp"`  // putrpc: the receive time the sender wrote into the record: 0 none | 1 well-formed, far future | 2 well-formed, long ago | 3 not a time
 }
 
 // VSScenario: a node's value store, initial content, concurrent actors.
@@ -267,6 +268,15 @@ func runVSInBubble(t *testing.T, sc *VSScenario, ch sim.Chooser) []sim.Ev {
 				}
 				req := &pb.Message{Type: pb.Message_PUT_VALUE, Key: []byte(key),
 					Record: &recpb.Record{Key: []byte(vsKey(rk)), Value: []byte(a.Val)}}
+				// the receive-time field is the receiver's business: whatever the sender put there is replaced
+				switch a.Stamp {
+				case 1:
+					req.Record.TimeReceived = time.Now().Add(1000 * time.Hour).UTC().Format(time.RFC3339Nano)
+				case 2:
+					req.Record.TimeReceived = time.Now().Add(-1000 * time.Hour).UTC().Format(time.RFC3339Nano)
+				case 3:
+					req.Record.TimeReceived = "yesterday"
+				}
 				rep, _ := e.host.ServeOnce(e.remote, sim.DefaultAddr(9), vsProto, sim.FrameMsg(req))
 				acked := len(rep.Msgs) == 1 && !rep.Reset
 				ok, rnk := valRank([]byte(a.Val))
@@ -404,6 +414,7 @@ func genVSScenario(r *rand.Rand, seq bool) *VSScenario {
 			a.Kind, a.Val = "putvalue", fmt.Sprintf("V%d:%d", r.Intn(4), i)
 		case 2, 3, 4:
 			a.Kind, a.Val = "putrpc", fmt.Sprintf("V%d:%d", r.Intn(4), i)
+			a.Stamp = []int{0, 0, 1, 2, 3}[r.Intn(5)]
 			if r.Intn(6) == 0 {
 				a.Val = fmt.Sprintf("I%d", r.Intn(4))
 			}
